@@ -80,7 +80,7 @@ BASES = {
     ],
 }
 
-VALUES = ['', 'x', '0', '-1', '1e300', 'nan', 'inf', '1e-300', '99', '1e29', '-1e29', '1e-29', '1_0', '1e', '0.5']
+VALUES = ['', 'x', '0', '-1', '1e300', 'nan', 'inf', '1e-300', '99', '1e29', '-1e29', '1e-29', '1_0', '1e', '0.5', '-9']
 # scalar options whose syntax is checked by the option parser itself
 ARGPARSE_TYPED = {'frequency', 'frequency_steps', 'frequency_increment', 'ff_power', 'ff_distance',
                   'nf_power', 'radial_count', 'radial_radius', 'excitation_voltage', 'load',
